@@ -54,7 +54,7 @@ CLAIMS = {
          "the input is never interpreted as a format; for the JSight schema scanner every panic raised by a state function, a closure or Next is "
          "proved to be an error value, and if it is a positioned diagnostic its index lies inside the text (thin contract over all 62 state "
          "functions). Not decided: which byte a scanner error points at, positions produced by the loader/compiler/checker (taken from lexemes), "
-         "readability of messages. errs.f is proved to answer with the runtime-failure code exactly when the code has no format or the number of arguments differs from "the number of placeholders (never because of the content of an argument), and every call <constant code>.F(args...) in the module is const-evaluated to pass as many arguments as the format has placeholders (static obligation per site; five sites with a variable code are assumptions).",
+         "readability of messages. errs.f is proved to answer with the runtime-failure code exactly when the code has no format or the number of arguments differs from the number of placeholders (never because of the content of an argument), and every call <constant code>.F(args...) in the module is const-evaluated to pass as many arguments as the format has placeholders (static obligation per site; five sites with a variable code are assumptions).",
          "5 C16", "weakest-precondition VCs over go/ssa + SMT; constant evaluation of the format table"),
  "C04": ("Numeric rule values are proved never to wrap: Bytes.ParseUint/ParseInt return the exact decimal value or an error (no-wrap "
          "obligations on u*10+d), so NewMinLength/NewMaxLength/NewMinItems/NewMaxItems/NewPrecision hold exactly the written number "
